@@ -1,1 +1,89 @@
 // Kani contract harnesses for /repo/arrow-select/src/zip.rs (child module: sees private items via super::)
+use super::*;
+#[path = "/verif/kani/support/spec.rs"]
+mod spec;
+use spec::*;
+use arrow_array::types::Int32Type;
+
+fn mk_mask(vb: &[u8], voff: usize, n: usize, nulls: Option<(&[u8], usize)>) -> BooleanArray {
+    let values = BooleanBuffer::new(Buffer::from_slice_ref(vb), voff, n);
+    let nulls = nulls.map(|(bm, boff)| NullBuffer::new(BooleanBuffer::new(Buffer::from_slice_ref(bm), boff, n)));
+    BooleanArray::new(values, nulls)
+}
+
+// Contract (C03): maybe_prep_null_mask_filter(mask) — the mask normalisation every zip path starts
+// with — returns N bits with bit i set <=> mask row i is true and valid ("null mask = falsy side"), for a
+// mask of N rows at bit offsets (6,1) with an optional validity bitmap.
+macro_rules! zip_mask {
+    ($name:ident, $n:expr) => {
+        #[kani::proof]
+        #[kani::unwind(20)]
+        #[kani::stub(alloc::fmt::format, stub_format)]
+        fn $name() {
+            const N: usize = $n;
+            let vb: [u8; 3] = kani::any();
+            let bm: [u8; 3] = kani::any();
+            let (voff, boff): (usize, usize) = (6, 1);
+            let with_nulls: bool = kani::any();
+            let mask = mk_mask(&vb, voff, N, if with_nulls { Some((&bm[..], boff)) } else { None });
+            let r = maybe_prep_null_mask_filter(&mask);
+            assert!(r.len() == N);
+            let mut c = 0;
+            let mut i = 0;
+            while i < N {
+                let want = bit(&vb, voff + i) && (!with_nulls || bit(&bm, boff + i));
+                assert!(r.value(i) == want);
+                if want { c += 1 }
+                i += 1;
+            }
+            assert!(r.count_set_bits() == c);
+            kani::cover!(with_nulls && mask.null_count() > 0 && c > 0);
+            kani::cover!(!with_nulls && c < N);
+            std::mem::forget(mask);
+        }
+    };
+}
+// @unit name=zip_mask_n4 props=C03 kind=bounded bound=rows=4_bit_offsets=(6,1) fns=maybe_prep_null_mask_filter tier=thorough note=not_confirmed_at_checkpoint
+zip_mask!(zip_mask_n4, 4);
+// @unit name=zip_mask_n12 props=C03 kind=bounded bound=rows=12_bit_offsets=(6,1) fns=maybe_prep_null_mask_filter tier=thorough note=not_confirmed_at_checkpoint
+zip_mask!(zip_mask_n12, 12);
+
+// Contract (C03, single attempt): scalar-scalar zip on Int32 — PrimitiveScalarImpl::create_output(mask):
+// row i == truthy if mask row i is true and valid, else falsy; a None side yields a null row. 2 rows.
+// The result is an Arc<dyn Array>; it is inspected through as_any().downcast_ref (dyn dispatch).
+// @unit name=zip_scalar_i32_n2 props=C03 kind=bounded bound=rows=2_both_scalars_optional fns=PrimitiveScalarImpl::create_output tier=thorough timeout=900 mem=10 note=not_confirmed_at_checkpoint
+#[kani::proof]
+#[kani::unwind(8)]
+#[kani::stub(alloc::fmt::format, stub_format)]
+fn zip_scalar_i32_n2() {
+    const N: usize = 2;
+    let vb: [u8; 1] = kani::any();
+    let bm: [u8; 1] = kani::any();
+    let with_nulls: bool = kani::any();
+    let mask = mk_mask(&vb, 0, N, if with_nulls { Some((&bm[..], 0)) } else { None });
+    let truthy: Option<i32> = kani::any();
+    let falsy: Option<i32> = kani::any();
+    let z = PrimitiveScalarImpl::<Int32Type> { data_type: DataType::Int32, truthy, falsy };
+    let r = z.create_output(&mask);
+    match &r {
+        Ok(a) => {
+            let a = a.as_any().downcast_ref::<PrimitiveArray<Int32Type>>().unwrap();
+            assert!(a.len() == N);
+            let mut i = 0;
+            while i < N {
+                let sel = bit(&vb, i) && (!with_nulls || bit(&bm, i));
+                match if sel { truthy } else { falsy } {
+                    Some(x) => { assert!(a.is_valid(i)); assert!(a.value(i) == x); }
+                    None => assert!(a.is_null(i)),
+                }
+                i += 1;
+            }
+        }
+        Err(_) => assert!(false),
+    }
+    kani::cover!(truthy.is_some() && falsy.is_none());
+    kani::cover!(truthy.is_none() && falsy.is_none());
+    std::mem::forget(r);
+    std::mem::forget(z);
+    std::mem::forget(mask);
+}
